@@ -140,12 +140,23 @@ Notation G c ws T := (G2 c ws T T).
 Definition TendX (c : gctx) (fin : option exn) (P : list sv -> nat -> gx -> Prop) (s : state) : Prop :=
   exists e vs n g, steps s (B e (g_base c) vs n g) /\ chg (g_own c) (vars_of s) vs /\
                    cle (lbl_of s) (gx_of s) n g /\ encR (g_sc c) (g_ce c) vs fin e /\ P vs n g.
-Definition Tend (c : gctx) (fin : option exn) (P : list sv -> nat -> gx -> Prop) (s : state) : Prop :=
-  match fin with Some XFuel => True | _ => TendX c fin P s end.
-Lemma Tend_inv : forall c fin P s, Tend c fin P s -> fin = Some XFuel \/ TendX c fin P s.
-Proof. intros c [[e0|l|]|] P s H; auto. Qed.
-Lemma Tend_of : forall c fin P s, TendX c fin P s -> Tend c fin P s.
-Proof. intros c [[e0|l|]|] P s H; simpl; auto. Qed.
+(* ... out of fuel (lb = the fuel of the denotation): the machine reaches a state in which at least lb frames have
+   been pushed since the context was entered (every call of a closure or function costs one unit of fuel and pushes
+   one frame, and the ghost counter ctr counts the pushes) -- so it makes at least lb steps *)
+Definition Tfuel (lb : nat) (c : gctx) (s : state) : Prop :=
+  exists s', steps s s' /\ g_ctr c + lb <= ctr (gx_of s').
+Definition Tend (lb : nat) (c : gctx) (fin : option exn) (P : list sv -> nat -> gx -> Prop) (s : state) : Prop :=
+  match fin with Some XFuel => Tfuel lb c s | _ => TendX c fin P s end.
+Lemma Tend_inv : forall lb c fin P s, Tend lb c fin P s -> (fin = Some XFuel /\ Tfuel lb c s) \/ TendX c fin P s.
+Proof. intros lb c [[e0|l|]|] P s H; auto. Qed.
+Lemma Tend_of : forall lb c fin P s, TendX c fin P s -> Tend lb c fin P s.
+Proof. intros lb c [[e0|l|]|] P s H; simpl; auto. destruct H as (e & vs & n & g & _ & _ & _ & HE & _). simpl in HE. contradiction. Qed.
+Lemma Tfuel_mono : forall lb lb' c c' s, g_ctr c' + lb' <= g_ctr c + lb -> Tfuel lb c s -> Tfuel lb' c' s.
+Proof. intros lb lb' c c' s H (s' & St & Hc). exists s'. split; [exact St|lia]. Qed.
+Lemma Tfuel_pre : forall lb c s s', steps s s' -> Tfuel lb c s' -> Tfuel lb c s.
+Proof. intros lb c s s' St (s2 & St2 & Hc). exists s2. split; [eapply steps_trans; eauto|exact Hc]. Qed.
+Lemma Tend_fuel : forall lb c P s, Tfuel lb c s -> Tend lb c (Some XFuel) P s.
+Proof. intros. exact H. Qed.
 
 Lemma G_pre : forall c ws T Tw s s1,
   steps s s1 -> chg (g_own c) (vars_of s) (vars_of s1) -> cle (lbl_of s) (gx_of s) (lbl_of s1) (gx_of s1) ->
@@ -249,6 +260,7 @@ Proof. intros sc ce ce' vs [[e0|l|]|] e H HE; simpl in *; auto. rewrite <- H. au
    and an invariant J g on the store.  Jf g is the part of the invariant that survives a continuation
    that runs after the last fork of the composition is gone *)
 Section Fold.
+Variable lb : nat.
 Variables (c1 c : gctx) (X : Type) (J Jf : X -> list sv -> nat -> gx -> Prop)
           (fb : X -> jv -> list jv * option exn * X)
           (ownb0 : nat -> Prop) (ceb : cenv).
@@ -294,19 +306,20 @@ Hypothesis JJf : forall g a n x, J g a n x -> Jf g a n x.
 Hypothesis Jlbl : forall g a n x, J g a n x -> lblOK (g_sc c) (g_ce c) a (g_n0 c).
 Hypothesis Hbody : forall w g fk' vs n o x os xx g', J g vs n x -> g_off c <= o <= length vs -> g_ctr c <= ctr x ->
    Forall (fun f => g_ctr c <= f_ctr f) fk' -> fb g w = (os, xx, g') ->
-   G (cbody fk' o (ctr x)) os (Tend (cbody fk' o (ctr x)) xx (wk fk' (J g') (Jf g')))
+   G (cbody fk' o (ctr x)) os (Tend lb (cbody fk' o (ctr x)) xx (wk fk' (J g') (Jf g')))
      (N (g_sc c) (g_pc c1) (SV w :: g_st c1) (fk' ++ g_base c) vs n o x).
 
 Lemma G_fold : forall ws1 g s fin1 os x g',
-  G c1 ws1 (Tend c1 fin1 (fun _ _ _ => True)) s -> J g (vars_of s) (lbl_of s) (gx_of s) ->
+  G c1 ws1 (Tend lb c1 fin1 (fun _ _ _ => True)) s -> J g (vars_of s) (lbl_of s) (gx_of s) ->
   g_ctr c <= ctr (gx_of s) ->
   foldgen ws1 g = (os, x, g') ->
-  G c os (Tend c (match x with Some e => Some e | None => fin1 end) (Jf g')) s.
+  G c os (Tend lb c (match x with Some e => Some e | None => fin1 end) (Jf g')) s.
 Proof.
   induction ws1; intros g s fin1 os x g' HG HJ Hcs HF; simpl in HF.
   - inversion HF; subst. simpl in HG. destruct HG as (s' & St & Ch & Le & HT).
     simpl. exists s. split; [constructor|]. split; [apply chg_refl|]. split; [apply cle_refl|].
-    destruct (Tend_inv _ _ _ _ HT) as [->|(e & vs & n & gg & St2 & Ch2 & Le2 & HE & _)]; [exact I|]. apply Tend_of.
+    destruct (Tend_inv _ _ _ _ _ HT) as [[-> HFu]|(e & vs & n & gg & St2 & Ch2 & Le2 & HE & _)];
+      [apply Tend_fuel; eapply Tfuel_pre; [exact St|]; eapply Tfuel_mono; [|exact HFu]; lia|]. apply Tend_of.
     exists e, vs, n, gg. rewrite <- Hbase, <- Hce, <- Hsc.
     assert (C : chg (g_own c1) (vars_of s) vs) by (eapply chg_trans; eauto).
     assert (L : cle (lbl_of s) (gx_of s) n gg) by (eapply cle_trans; eauto).
@@ -347,21 +360,23 @@ Proof.
     + (* the inner generator is over *)
       destruct R as [E R]. subst ws1. simpl in HF.
       assert (Hfin : forall s1, Q (vars_of s1) (lbl_of s1) (gx_of s1) ->
-                Tend (cbody [] o3 (ctr g3)) x1 (Jf g1) s1 ->
-                Tend c (match x1 with Some e => Some e | None => fin1 end) (Jf g1) s1).
-      { intros s1 HQ1 HT1. destruct (Tend_inv _ _ _ _ HT1) as [->|(e & vs4 & n4 & g4 & St4 & Ch4 & Le4 & HE & HJ4)]; [exact I|].
+                Tend lb (cbody [] o3 (ctr g3)) x1 (Jf g1) s1 ->
+                Tend lb c (match x1 with Some e => Some e | None => fin1 end) (Jf g1) s1).
+      { intros s1 HQ1 HT1. destruct (Tend_inv _ _ _ _ _ HT1) as [[-> HFu]|(e & vs4 & n4 & g4 & St4 & Ch4 & Le4 & HE & HJ4)];
+          [apply Tend_fuel; eapply Tfuel_mono; [|exact HFu]; simpl; lia|].
         simpl in St4, Ch4. cbn [cbody g_sc g_ce] in HE.
         apply encR_lbls with (ce' := g_ce c) in HE; auto.
         destruct x1 as [ex|].
         - apply Tend_of. exists e, vs4, n4, g4. split; [exact St4|]. split; [exact (chg_mono _ _ _ _ Hob Ch4)|]. split; [exact Le4|]. split; [exact HE|exact HJ4].
         - simpl in HE. subst e.
           assert (HQ4 : Q vs4 n4 g4) by (eapply Q1; eauto). destruct HQ4 as [K4 Hn4]. simpl in K4.
-          destruct (Tend_inv _ _ _ _ (R vs4 n4 g4 K4 Hn4)) as [->|(e5 & vs5 & n5 & g5 & St5 & Ch5 & Le5 & HE5 & _)]; [exact I|].
+          destruct (Tend_inv _ _ _ _ _ (R vs4 n4 g4 K4 Hn4)) as [[-> HFu]|(e5 & vs5 & n5 & g5 & St5 & Ch5 & Le5 & HE5 & _)];
+            [apply Tend_fuel; eapply Tfuel_pre; [exact St4|]; rewrite Hbase in HFu; eapply Tfuel_mono; [|exact HFu]; lia|].
           simpl in St5, Ch5. rewrite Hbase in St5. apply Tend_of.
           exists e5, vs5, n5, g5. split; [eapply steps_trans; eauto|].
           split; [exact (chg_trans _ _ _ _ (chg_mono _ _ _ _ Hob Ch4) (chg_mono _ _ _ _ Hown1 Ch5))|]. split; [eapply cle_trans; eauto|].
           split; [rewrite <- Hsc, <- Hce; exact HE5|]. eapply Jf1; eauto. }
-      assert (HG1 : G c os1 (Tend c (match x1 with Some e => Some e | None => fin1 end) (Jf g1))
+      assert (HG1 : G c os1 (Tend lb c (match x1 with Some e => Some e | None => fin1 end) (Jf g1))
                       (N (g_sc c) (g_pc c1) (SV a :: g_st c1) ([] ++ g_base c) vs3 n3 o3 g3)).
       { match type of Hb with G2 _ ?o _ _ ?st0 =>
           refine (G_ctx (cbody [] o3 (ctr g3)) c [] Q _ _ _ _ eq_refl eq_refl eq_refl eq_refl Hob Hks Hk0 (le_n _) Ho1 Hc3 Hfk Q1 Q2 _ Hfin Hfin o st0 HQ0 Hb) end.
@@ -378,9 +393,9 @@ Proof.
       * inversion HF; subst.
         eapply G_pre; [exact St|exact (chg_mono _ _ _ _ Hown1 Ch)|exact Le|].
         assert (Hfin : forall s1, Q (vars_of s1) (lbl_of s1) (gx_of s1) ->
-                  Tend (cbody (f0 :: fk0) o3 (ctr g3)) (Some ex) (wk (f0 :: fk0) (J g') (Jf g')) s1 -> Tend c (Some ex) (Jf g') s1).
-        { intros s1 HQ1 HT1. destruct (Tend_inv _ _ _ _ HT1) as [E|(e & vs4 & n4 & g4 & St4 & Ch4 & Le4 & HE & HJ4)];
-            [inversion E; subst ex; exact I|].
+                  Tend lb (cbody (f0 :: fk0) o3 (ctr g3)) (Some ex) (wk (f0 :: fk0) (J g') (Jf g')) s1 -> Tend lb c (Some ex) (Jf g') s1).
+        { intros s1 HQ1 HT1. destruct (Tend_inv _ _ _ _ _ HT1) as [[E HFu]|(e & vs4 & n4 & g4 & St4 & Ch4 & Le4 & HE & HJ4)];
+            [inversion E; subst ex; apply Tend_fuel; eapply Tfuel_mono; [|exact HFu]; simpl; lia|].
           simpl in St4, Ch4, HJ4. cbn [cbody g_sc g_ce] in HE. apply Tend_of.
           destruct (encR_some _ _ _ _ _ HE) as (y & ->).
           apply encR_lbls with (ce' := g_ce c) in HE; auto.
@@ -399,9 +414,9 @@ Proof.
         eapply G_pre; [exact St|exact (chg_mono _ _ _ _ Hown1 Ch)|exact Le|].
         apply G_app.
         assert (Hfin : forall s1, Q (vars_of s1) (lbl_of s1) (gx_of s1) ->
-                  Tend (cbody (f0 :: fk0) o3 (ctr g3)) None (wk (f0 :: fk0) (J g1) (Jf g1)) s1 ->
-                  G c os2 (Tend c (match x with Some e => Some e | None => fin1 end) (Jf g')) s1).
-        { intros s1 HQ1 HT1. destruct (Tend_inv _ _ _ _ HT1) as [E|(e & vs4 & n4 & g4 & St4 & Ch4 & Le4 & HE & HJ4)]; [discriminate E|].
+                  Tend lb (cbody (f0 :: fk0) o3 (ctr g3)) None (wk (f0 :: fk0) (J g1) (Jf g1)) s1 ->
+                  G c os2 (Tend lb c (match x with Some e => Some e | None => fin1 end) (Jf g')) s1).
+        { intros s1 HQ1 HT1. destruct (Tend_inv _ _ _ _ _ HT1) as [[E _]|(e & vs4 & n4 & g4 & St4 & Ch4 & Le4 & HE & HJ4)]; [discriminate E|].
           simpl in St4, Ch4, HE, HJ4. subst e.
           assert (HQ4 : Q vs4 n4 g4) by (eapply Q1; eauto).
           destruct HQ4 as [K4 Hn4]. simpl in K4. destruct (R vs4 n4 g4 K4 Hn4) as [R1 _]. rewrite Hbase in R1.
